@@ -36,6 +36,15 @@ POLY_ATOMS = ('abs', 'norm1', 'norminf')
 SOC_ATOMS = ('norm2', 'square', 'sumsqr')
 
 
+def rational_sqrt(k):
+    k = Fraction(k)
+    from math import isqrt
+    n, d = k.numerator, k.denominator
+    if n > 0 and isqrt(n) ** 2 == n and isqrt(d) ** 2 == d:
+        return Fraction(isqrt(n), isqrt(d))
+    return None
+
+
 def is_conic(cm, F):
     """True when a support or an expectation set of F carries a second-order-cone atom (and nothing beyond)."""
     A = cm.o.amb[F]
@@ -84,13 +93,18 @@ def persp(cons, names, q, msub, G, H, Q):
             offs = list(a.off.reshape(-1))
             if a.kind == 'norm2':
                 Q.append((hom(offs[0] * (-1 / a.k), q, msub), [hom(e, q, msub) for e in args]))
-            elif a.kind == 'square':
-                for e, o in zip(args, offs):
+            elif a.kind in ('square', 'sumsqr'):
+                groups = [(offs[0], args)] if a.kind == 'sumsqr' else [(o, [e]) for e, o in zip(args, offs)]
+                for o, es in groups:
                     h = hom(o * (-1 / a.k), q, msub)
-                    Q.append(((h + q) * Fraction(1, 2), [(h - q) * Fraction(1, 2), hom(e, q, msub)]))
-            elif a.kind == 'sumsqr':
-                h = hom(offs[0] * (-1 / a.k), q, msub)
-                Q.append(((h + q) * Fraction(1, 2), [(h - q) * Fraction(1, 2)] + [hom(e, q, msub) for e in args]))
+                    Q.append(((h + q) * Fraction(1, 2), [(h - q) * Fraction(1, 2)] + [hom(e, q, msub) for e in es]))
+                    rk = rational_sqrt(a.k)
+                    if a.k != 1 and rk is not None:
+                        # the same set in the coordinates RSOME dualises: (sqrt(k) e)^2 <= -off.  Both memberships are facts;
+                        # the pairing with RSOME's multipliers needs the vector RSOME's cone is stated for (a rotated cone is
+                        # not invariant under rescaling one of its arguments)
+                        h2 = hom(o * -1, q, msub)
+                        Q.append(((h2 + q) * Fraction(1, 2), [(h2 - q) * Fraction(1, 2)] + [hom(e, q, msub) * rk for e in es]))
             else:
                 raise HarnessError('moment form: unsupported atom %s' % a.kind)
         else:
@@ -176,7 +190,71 @@ def _f(p, env):
     return float(Poly.lift(p).evalf(env))
 
 
+def _lin_row(p, idx):
+    """(row vector, constant) of a polynomial that is affine in the variables of idx."""
+    row = np.zeros(len(idx))
+    const = 0.0
+    for mono, c in Poly.lift(p).t.items():
+        if len(mono) == 0:
+            const += float(c)
+        elif len(mono) == 1 and mono[0] in idx:
+            row[idx[mono[0]]] += float(c)
+        else:
+            raise HarnessError('moment system is not linear in its variables: %r' % (mono,))
+    return row, const
+
+
+def worst_moments_ecos(cm, F, group, assign, npieces, sign=1):
+    """The worst moments as the conic LP they are:  max value(q, m)  s.t.  G >= 0, H == 0, (head, tails) in SOC  - solved with
+    ECOS directly (numeric witness search only; the result is re-checked against the true set by the caller)."""
+    import ecos
+    from scipy.sparse import csc_matrix
+    sysm = moment_system(cm, F, npieces)
+    names = sysm['vars']
+    idx = {n: i for i, n in enumerate(names)}
+    val = bilinear_value(cm, group, sysm, npieces, assign=assign) * sign
+    c, _ = _lin_row(val, idx)
+    Gm, hv = [], []
+    for g in sysm['G']:
+        r, k = _lin_row(g, idx)          # r.y + k >= 0   ->   -r.y + s = k, s >= 0
+        Gm.append(-r)
+        hv.append(k)
+    nl = len(Gm)
+    qdims = []
+    for hd, tl in sysm['Q']:
+        for e in [hd] + list(tl):
+            r, k = _lin_row(e, idx)      # s = r.y + k  in SOC
+            Gm.append(-r)
+            hv.append(k)
+        qdims.append(1 + len(tl))
+    Am, bv = [], []
+    for h_ in sysm['H']:
+        r, k = _lin_row(h_, idx)
+        Am.append(r)
+        bv.append(-k)
+    dims = dict(l=nl, q=qdims, e=0)
+    try:
+        sol = ecos.solve(-c, csc_matrix(np.array(Gm)), np.array(hv, dtype=float), dims,
+                         csc_matrix(np.array(Am)) if Am else None, np.array(bv, dtype=float) if Am else None, verbose=False)
+    except Exception:  # noqa
+        return None
+    if sol['info']['exitFlag'] not in (0, 10):
+        return None
+    env = dict(zip(names, [float(t) for t in sol['x']]))
+    return float(c @ sol['x']) + float(_lin_row(val, idx)[1]), env
+
+
 def worst_moments(cm, F, group, assign, npieces, sign=1, starts=4, seed=3):
+    try:
+        w = worst_moments_ecos(cm, F, group, assign, npieces, sign)
+        if w is not None:
+            return w
+    except ImportError:
+        pass
+    return worst_moments_slsqp(cm, F, group, assign, npieces, sign, starts, seed)
+
+
+def worst_moments_slsqp(cm, F, group, assign, npieces, sign=1, starts=4, seed=3):
     """Numerically worst (q, m) of the moment set for the decisions `assign` (SLSQP); returns (value, env) or None."""
     from scipy.optimize import minimize
     sysm = moment_system(cm, F, npieces)
